@@ -30,6 +30,7 @@ type Config struct {
 	Seed          int64
 	Verbose       bool
 	Deadline      time.Time
+	SiteStats     bool
 	Params        map[string]int
 	Tier          string
 	Pinned        map[string]uint64 // non-nil: concrete re-execution, vnd* return these values
@@ -83,6 +84,7 @@ type pathState struct {
 	fmtOpaque  int
 	ptrPrinted int
 	transcriptSym bool
+	stubOff    map[string]bool
 }
 
 // PathResult is the outcome of one explored path.
@@ -224,6 +226,9 @@ func (in *Interp) decide(fr *frame, c *Term) bool {
 		in.abort("depth", "more than %d symbolic decisions on one path (unwinding bound)", in.cfg.MaxDecisions)
 	}
 	taken := in.pool.Eval(c) != 0
+	if in.siteCount != nil {
+		in.siteCount[fnName(fr)]++
+	}
 	in.solveAlt(c, !taken, Decision{Site: site, Kind: 0, Taken: !taken})
 	in.assertBase(c, taken)
 	ps.decisions = append(ps.decisions, Decision{Site: site, Kind: 0, Taken: taken})
@@ -270,6 +275,9 @@ func (in *Interp) concretize(fr *frame, t *Term) uint64 {
 		v := in.pool.Eval(t)
 		c := in.pool.Eq(t, in.pool.mk(opConst, t.w, v, ""))
 		ps.nDec++
+		if in.siteCount != nil {
+			in.siteCount["concretize@"+fnName(fr)]++
+		}
 		in.solveAlt(c, false, Decision{Site: site, Kind: 1, Taken: false, Val: v})
 		in.assertBase(c, true)
 		ps.decisions = append(ps.decisions, Decision{Site: site, Kind: 1, Taken: true, Val: v})
@@ -466,6 +474,7 @@ type Report struct {
 	FnInstr   map[string]int
 	Wall      time.Duration
 	LoadTime  time.Duration
+	SiteCount map[string]int
 }
 
 type Explorer struct {
@@ -563,6 +572,12 @@ func (e *Explorer) Run(harnesses []string) (*Report, error) {
 			if w != nil {
 				mu.Lock()
 				rep.Solver.Add(&w.solver.Stats)
+				for k, v := range w.in.siteCount {
+					if rep.SiteCount == nil {
+						rep.SiteCount = map[string]int{}
+					}
+					rep.SiteCount[k] += v
+				}
 				for f, c := range w.in.fnCount {
 					name := f.String()
 					rep.FnCount[name] += c
@@ -642,6 +657,9 @@ func (e *Explorer) newWorker(id int) (*Worker, error) {
 	in, err := e.prog.NewInterp(e.cfg)
 	if err != nil {
 		return nil, err
+	}
+	if e.cfg.Verbose || e.cfg.SiteStats {
+		in.siteCount = map[string]int{}
 	}
 	if e.cfg.Verbose {
 		fmt.Printf("  worker %d initialised in %v (%d instrs)\n", id, time.Since(t0), in.ninstr)
